@@ -3,6 +3,12 @@
 import json
 
 CLAIMED = {
+    "C12": {
+        "technique": "Lean 4 theorems over the translated box algebra (combine/intersect/expand/shrink) by induction on the reference list + document-level correspondence of the containment model",
+        "text": "Machine-checked proof (Lean 4), for reference lists of any length and all rational boxes: the union encloses every listed box (unionAll_encloses) and a non-negative margin only grows it (expand_encloses), with the 1-4 margin values applied in CSS top/right/bottom/left order (trbl_css_order, expand_absolute, expand_ratio); a surrounding rect carries exactly the grown box (surround_rect_exact, over the AttrMap lemma library); a surrounding circle/ellipse reaches every corner up to the measured defect of the f32 SQRT_2 constant, 2/s^2 <= 1+1e-7 (sqrt2_defect, surround_circle_circumscribes, surround_ellipse_circumscribes); the intersection lies within every listed area and shrinking keeps it inside (intersectAll_within, shrink_within, inside_circle_inscribed, inscribed_square_in_circle); surround/inside/margin are removed (containment_attrs_removed); both at once is an error (both_is_error). The handle_containment string pipeline is a hand model tied by the doc/containment correspondence stream.",
+        "note": "Exact rationals for f32; SQRT_2/FRAC_1_SQRT_2 are the exact values of the f32 constants and the circumscription theorems carry the resulting epsilon explicitly. Percent base (max side for surround, min side for inside) is stated as the code has it. An empty intersection yields no geometry and no error in the code; the property does not say what should happen and the oracle does not judge it.",
+        "design_ref": "DESIGN.md §7 C12",
+    },
     "C09": {
         "technique": "Lean 4 theorems over the translated locspec/calc_offset/to_bbox code and generated xy-loc/LocSpec tables + document-level correspondence of the positioning pipeline model",
         "text": "Machine-checked proof (Lean 4), for all rational boxes, sizes, gaps and offsets: an element placed with |h |H |v |V sits beside the referenced box at exactly the gap and centred on the shared axis, its size unchanged (dir_h/H/v/V, dir_size); chains of any length stay exact (chainH_exact, by induction on the chain); the nine named locations and the four edge forms (positive / negative units, percent) denote the documented points (locspec_named, edge_offset_semantics, edge_points, ratio_ends); for every row of the generated xy-loc table, and for the default and cxy anchors, the solved box has the named anchor on the requested point (xy_loc_anchor_on_target, default_and_centre_anchor); scalar references and relative sizes take the box's values (scalarspec_values, size_adjust). The attribute-string pipeline that feeds these functions is a hand-written Lean model compared attribute-for-attribute with transform_str on generated reference documents; an independent reference calculator supplies replays.",
